@@ -1,7 +1,7 @@
 #!/bin/sh
 # usage: tools/try_patch.sh <patch.diff> <property-ids comma separated|all>
 # Applies a seeded change to /repo, runs the checks, and undoes it straight afterwards.
-patch="$1"; props="${2:-all}"
+patch="$(readlink -f "$1")"; props="${2:-all}"
 cd /verif || exit 2
 if [ -n "$(git -C /repo status --porcelain)" ]; then echo "/repo is dirty"; exit 2; fi
 git -C /repo apply "$patch" || { echo "patch does not apply"; exit 2; }
